@@ -5870,8 +5870,17 @@ impl<'a> Tyck<'a> for TyEnvT<su::TermId> {
                     std::panic::Location::caller(),
                 )?;
                 let (binder, binder_ty) = {
+                    // The binder of a fixed point names the thunk of the computation
+                    // being defined; any other binder type (a tuple pattern, `_ : Int`)
+                    // is a type error of the source program.
                     let ss::Type::App(ret_app_body_ty) = tycker.type_filled_k(&binder_ty)? else {
-                        unreachable!()
+                        return tycker.err_k(
+                            TyckError::TypeExpected {
+                                expected: "`Thk _`".to_string(),
+                                found: binder_ty,
+                            },
+                            std::panic::Location::caller(),
+                        );
                     };
                     let ss::App(_ret_ty, body_ty) = ret_app_body_ty;
                     (binder, body_ty)
